@@ -2635,7 +2635,7 @@ void updateBaseUnitCount(const ModelPtr &model,
                     for (const auto &iter : standardUnitsList.at(ref)) {
                         unitMap.at(iter.first) += direction * (iter.second * exp * uExp);
                     }
-                    multiplier += direction * ((standardMultiplierList.at(ref) + mult + convertPrefixToInt(pre)) * exp);
+                    multiplier += direction * ((standardMultiplierList.at(ref) + mult + convertPrefixToInt(pre)) * exp * uExp);
                 }
             }
             // The scale that comes with the reference to these units counts
